@@ -14,7 +14,7 @@ func init() { register("C30", checkC30) }
 
 func checkC30(p *Prog, r *Result, tier string) {
 	r.Technique = "defer-stack order and dominance rules on the per-workload closure of RunAndWait (go/cfg), channel/wait-group protocol rules for the output stream, write-ahead rule W2 for the lambda log entry"
-	r.Explanation = "In the per-workload closure of RunAndWait: D1 wg.Done is the first registered defer and the final-message send the second (so the exit-code/err message is the last message of that workload and the wait group is always released); D2 the removal defer is registered after the commit defer (LIFO: removal runs before the log entry is committed) and both after the final-send defer; D3 every engine/store interaction of the closure (before or after the log entry) is dominated by the registration of the removal defer (no path can leave a started workload without the removal armed); D4 the removal runs under a context detached from the caller's cancellation; H1/H5 the output channel is closed exactly once by a first-statement defer after waiting for every per-workload goroutine; W2 the lambda log entry is committed only after removal; RS removal is synchronous (drains the remove stream); DR the RPC handler keeps receiving from the run-and-wait channel until it closes (the producers send without an escape, so an early exit of the consumer strands them before their cleanup)."
+	r.Explanation = "LV no goroutine started in the loop over the create messages captures the loop variable (each workload is waited for, logged and removed by its own goroutine); In the per-workload closure of RunAndWait: D1 wg.Done is the first registered defer and the final-message send the second (so the exit-code/err message is the last message of that workload and the wait group is always released); D2 the removal defer is registered after the commit defer (LIFO: removal runs before the log entry is committed) and both after the final-send defer; D3 every engine/store interaction of the closure (before or after the log entry) is dominated by the registration of the removal defer (no path can leave a started workload without the removal armed); D4 the removal runs under a context detached from the caller's cancellation; H1/H5 the output channel is closed exactly once by a first-statement defer after waiting for every per-workload goroutine; W2 the lambda log entry is committed only after removal; RS removal is synchronous (drains the remove stream); DR the RPC handler keeps receiving from the run-and-wait channel until it closes (the producers send without an escape, so an early exit of the consumer strands them before their cleanup)."
 	r.NotCovered = "removal failures being ignored by doRemoveWorkloadSync (it only logs); engine behaviour; the content of the exit message"
 	a := newChanAnalyzer(p, r)
 	F := p.Fn("cluster/calcium.(*Calcium).RunAndWait")
@@ -174,6 +174,10 @@ func checkC30(p *Prog, r *Result, tier string) {
 		r.undecided("RS", "doRemoveWorkloadSync", "", "not found")
 	}
 	checkRunAndWaitDrained(p, r)
+	// LV: the per-workload goroutines of a run-and-wait each handle THEIR create message: a closure handed to the pool inside
+	// the loop over the create messages must not capture the loop variable (go.mod < 1.22: one variable for all iterations)
+	r.min("LV", 1)
+	checkLoopVarCapture(p, r, "LV", []string{"cluster/calcium.(*Calcium).RunAndWait"})
 }
 
 // DR: the per-workload goroutines send on an unbuffered channel with no escape, so their cleanup (removal, exit code,
